@@ -147,6 +147,27 @@ def run_shard(ctx):
                 cells["constraint_message" if not langs else f"constraint_message::{langs[0]}"] = "cm"
             holder = rng.choice([form.survey] + [r.children for r, _ in form.walk() if r.is_section()])
             holder.append(Row("q", "text", f"ex:nsq{i % 7}", cells))
+        if i % 9 == 4 and form.choices:
+            # the legacy add_none_option setting next to a select_multiple whose list needs itext (translated labels, media, references)
+            form.settings["add_none_option"] = rng.choice(["yes", "true"])
+            ln = rng.choice(sorted(form.choices))
+            form.survey.append(Row("q", f"select_multiple {ln}", f"nonesel{i % 5}", {"label": "pick"}))
+            ctx.ctr("add_none_option_forms")
+        if i % 16 == 9:
+            # a generic media::<type> column of a type the clients do not know, on a row with and without other content for its label entry
+            langs = form.meta.get("langs") or []
+            mh = "media::pdf" if not langs or rng.random() < 0.5 else f"media::pdf::{rng.choice(langs)}"
+            shape = rng.choice(["media-only-note", "media-only-group", "with-label", "with-image"])
+            if shape == "media-only-group":
+                form.survey.append(Row("group", "begin group", f"mg{i % 5}", {mh: "doc.pdf"}, [Row("q", "text", f"mgq{i % 5}", {"label": "in"})]))
+            else:
+                cells = {mh: "doc.pdf"}
+                if shape == "with-label":
+                    cells["label"] = "has label"
+                if shape == "with-image":
+                    cells["image"] = "a.png"
+                form.survey.append(Row("q", "note", f"mn{i % 5}", cells))
+            ctx.ctr("unknown_media_type_forms")
         if i % 16 == 5:
             # osm question with (possibly translated) tags from the osm sheet
             langs = form.meta.get("langs") or []
